@@ -1,12 +1,13 @@
 CONSTANTS
   HashMode = "real"
   Bug = "none"
-  Sweeps = {"pairs", "near", "deep", "hier", "xtwin", "xnear", "xdeep"}
+  Sweeps = {"pairs", "near", "deep", "hier", "xtwin", "xnear", "xdeep", "self", "selfn"}
   PairDepth = 2
   NearDepth = 3
   DeepDepth = 2
   HierDepth = 3
   XDepth = 2
+  SelfDepth = 2
   Wide = TRUE
   EmitCases = TRUE
 INIT Init
